@@ -19,6 +19,7 @@ StreamIds == IF IOEnv.GEN_STREAMS = "all" THEN 1..NStreams ELSE {2, 4, 6, 7, 8, 
 O(name, n) == [op |-> name, n |-> n]
 NoArg == {"read_u8", "peek_u8", "read_bool", "read_u16", "read_u32", "read_u64", "read_u128",
           "read_usize", "has_more_bytes"}
+Huge == 2147483647
 SizesSmall == {0, 1, 16, 17, 256, 300}
 SizesFull  == {0, 1, 2, 3, 15, 16, 17, 255, 256, 257, 300}
 ArrSmall   == {0, 3, 17, 256}
@@ -32,7 +33,10 @@ StaticOps ==
           ELSE {O(nm, k) : nm \in {"read_slice", "read_vec", "read_string", "check_eor"}, k \in SizesFull}
                \cup {O("read_array", k) : k \in ArrFull}
                \cup {O("read_many_u16", k) : k \in {0, 1, 8, 128, 129, 200}}
-               \cup {O("read_many_u8", k) : k \in {1, 17, 257}})
+               \cup {O("read_many_u8", k) : k \in {1, 17, 257}}
+               \* lengths no stream can satisfy: Huge stands for usize::MAX, Huge - 1 for usize::MAX - 3 (position + length wraps
+               \* around the word size once four bytes have been read); the contract answers "end of data" like for any other excess
+               \cup {O(nm, k) : nm \in {"read_slice", "read_vec", "check_eor"}, k \in {Huge, Huge - 1}})
 \* sizes relative to what is left: the exact fit and one byte too many
 RelOps(rem) == {O(nm, k) : nm \in {"read_slice", "check_eor", "read_vec"}, k \in {rem, rem + 1}}
 
